@@ -68,7 +68,16 @@ func opsExec(raw json.RawMessage, hist []string, deep bool) *bfsResult {
 		served = append(served, fmt.Sprint(tso))
 	}
 	sort.Strings(served)
-	res.Key = fmt.Sprintf("%s|now=%d|servers=%d|migr=%d", w.M.valueKey(), w.Now, len(w.M.Servers), len(w.M.Migrations))
+	var srvs []string
+	for _, sv := range w.M.Servers {
+		srvs = append(srvs, fmt.Sprintf("%x:%v:%d", sv.PublicKey[:3], sv.Banned, sv.HttpPort))
+	}
+	var migs []string
+	for k, mg := range w.M.Migrations {
+		migs = append(migs, fmt.Sprintf("%x>%x", k[:3], mg.NewGCA[:3]))
+	}
+	sort.Strings(migs)
+	res.Key = fmt.Sprintf("%s|now=%d|servers=%v|migr=%v", w.M.valueKey(), w.Now, srvs, migs)
 	res.Outcome = fmt.Sprintf("devs=%d bans=%d off=%d arch=%d reg=%v", len(w.M.Devices), len(w.M.Bans), w.M.Offset, len(w.M.Archive), w.M.Registered)
 	if !deep || !res.Expand {
 		return res
